@@ -386,7 +386,7 @@ func genC03(tier string, seed int64) (*Family, error) {
 		fam.Instances = append(fam.Instances, Instance{Func: name, Stratum: stratum, Desc: desc, Expect: []string{"executed"}})
 	}
 	clean := func(s string) string {
-		r := strings.NewReplacer(".", "_", "[", "_", "]", "", "\"", "", "*", "")
+		r := strings.NewReplacer(".", "_", "[", "_", "]", "", "\"", "", "*", "", "-", "neg")
 		return r.Replace(s)
 	}
 	for _, t := range targets {
@@ -445,6 +445,7 @@ func genC03(tier string, seed int64) (*Family, error) {
 		{"pmis[nik]", "string", "\"\""}, {"pmis[1]", "string", "\"one\""}, {"pmis[ione]", "string", "\"one\""}, {"mis[nik]", "string", "\"\""}, {"psm[nokey]", "bool", "false"}, {"psm[key]", "bool", "true"},
 		{"d.SL[2]", "int64", "d.SL[2]"}, {"d.SL[ix]", "int64", "d.SL[1]"}, {"sl[0]", "int64", "d.SL[0]"}, {"psl[1]", "int64", "d.SL[1]"}, {"d.SL8[1]", "int8", "d.SL8[1]"},
 		{"d.AR[1]", "int64", "d.AR[1]"}, {"par[0]", "int64", "d.PAR[0]"}, {"d.PAR[2]", "int64", "d.PAR[2]"},
+		{"d.MI[-40]", "int64", "int64(0)"}, {"mis[-1]", "string", "\"\""}, {"pmis[-1]", "string", "\"\""},
 	}
 	for k, r := range reads {
 		name := fmt.Sprintf("R_%02d_%s", k, clean(r.rule))
@@ -640,6 +641,41 @@ func mkOrderB(price, count int64) (interface{}, *int64, *int64) {
 	o := &Order{Price: price, Count: count, In: &In{}, Spare: &In{}}
 	return o, &o.Price, &o.Count
 }
+`)
+	add("C_param_order", "call", "numeric parameters after string / bool ones are converted like any other", `func C_param_order() {
+	d, s, p, q := newD()
+	dc := inject(d, p)
+	x := vnd.Int64("x")
+	vnd.Assume(vnd.And(x >= 0, x <= 100))
+	dc.Add("x", x)
+	var gs string
+	var gn int
+	var gb bool
+	var gf float32
+	var gu uint8
+	calls := 0
+	dc.Add("fn", func(s string, n int, b bool, f float32, u uint8) int64 { gs, gn, gb, gf, gu = s, n, b, f, u; calls++; return 1 })
+	dc.Add("po", &paramObj{})
+	err, _ := exec(dc, " a = fn(\"abc\", x, true, 2, 200)\n b = po.Put(false, x, \"s\", 7)\n return a + b")
+	vnd.Reach("executed")
+	vnd.Assert(err == nil, "the calls succeed")
+	vnd.Assert(calls == 1 && gs == "abc" && gn == int(x) && gb && gf == 2 && gu == 200, "arguments positional, converted to the declared parameter types")
+	vnd.Assert(lastPut.b == false && lastPut.i == int32(x) && lastPut.s == "s" && lastPut.u == 7, "method arguments positional, converted to the declared parameter types")
+	untouched(d, s, p, q, "")
+}
+
+type paramObj struct{}
+
+type putRec struct {
+	b bool
+	i int32
+	s string
+	u uint16
+}
+
+var lastPut putRec
+
+func (o *paramObj) Put(b bool, i int32, s string, u uint16) int64 { lastPut = putRec{b, i, s, u}; return 2 }
 `)
 	// every numeric parameter type x every source class
 	for _, pt := range []string{"int", "int8", "int16", "int32", "int64", "uint", "uint8", "uint16", "uint32", "uint64", "float32", "float64"} {
